@@ -72,6 +72,8 @@ def run_history(case, rec, lib, scratch, real_gpg_fpr=None):
     allkeys = keys + [gpgkey]
     fn = os.path.join(scratch, "md.json")
     mem = S.wrap_as_signable(payload)
+    for jk, jv in case.get("junk", []):
+        mem["signatures"][jk] = copy.deepcopy(jv)
     vfp = boundary.value_fingerprint
     # stub GnuPG signer
     saved = (getattr(R, "gpg_funcs", None), R.SSLIB_AVAILABLE)
@@ -261,7 +263,12 @@ def gen_history(rng, steps):
             break
     seeds = [gkeys.key(i).seed.hex() for i in rng.sample(range(4), rng.randint(1, 3))]
     ops = ["sign_mem"] + [rng.choice(OPS) for _ in range(steps - 1)]
-    return {"kind": "hist", "payload": payload, "seeds": seeds, "ops": ops, "rseed": rng.getrandbits(32)}
+    junk = []
+    if rng.random() < 0.3:
+        # stale / foreign / junk entries, more of them than any small constant: file order (sorted) != insertion order
+        for _ in range(rng.choice([15, 16, 17, 31, 40, 100])):
+            junk.append(["%064x" % rng.getrandbits(256), {"signature": "%0128x" % rng.getrandbits(512)}])
+    return {"kind": "hist", "payload": payload, "seeds": seeds, "ops": ops, "rseed": rng.getrandbits(32), "junk": junk}
 
 
 def run_hist(spec, rec, lib):
